@@ -274,7 +274,21 @@ impl TerminalRenderer {
         // - Replace glyphs with images in the front buffer
         // - Erase changed images
         // - Record images that we need to render
+        let mut shadow = Position::origin(); // cells in `shadow.row` left of `shadow.col` are covered by a wide character
         for ((pos, old), new) in self.back.iter().with_position().zip(self.front.iter_mut()) {
+            // cells covered by a wide character are not displayed, normalize them
+            // so the diff does not depend on their content
+            if pos.row == shadow.row && pos.col < shadow.col {
+                *new = Cell::new_char(Face::default(), '\0');
+            } else if self.marks.get(pos) == Some(&CellMark::Ignored) {
+                // covered by an image, will not be painted
+            } else if let CellKind::Char(character) = &new.kind {
+                let width = character.width().unwrap_or(0);
+                if width > 1 {
+                    shadow = Position::new(pos.row, pos.col + width);
+                }
+            }
+
             // replace glyphs with images
             if let CellKind::Glyph(glyph) = &new.kind {
                 let image = match self.glyph_cache.get(new) {
